@@ -1,0 +1,257 @@
+//! Verification hooks, compiled only with the cargo feature `verif-hooks`.
+//!
+//! Nothing here changes behaviour unless an external harness installs a
+//! [`Receiver`]: `point` is then a callback at named places of the commit / remove /
+//! read / clean-up paths, and the three index locks report who waits for and who
+//! holds them. Without a receiver every function degenerates to the plain
+//! `parking_lot` call. The module also re-exports a few crate-private functions
+//! (codecs, ranged blob read) so that tools which cannot drive a whole `Cas`
+//! (Miri, codec fuzzers) can reach them.
+
+use std::ops::{Deref, DerefMut};
+use std::sync::OnceLock;
+
+/// Callbacks implemented by the harness. All methods are called on the thread that
+/// performs the store operation.
+pub trait Receiver: Send + Sync + 'static {
+    /// A named place between two steps of an operation.
+    fn point(&self, name: &'static str);
+    /// The thread is about to try to acquire lock `id` (address) of class `class`.
+    fn lock_before(&self, id: usize, class: &'static str, exclusive: bool);
+    /// A non-blocking attempt failed. Return `true` to make the caller try again
+    /// (the receiver may park the thread first), `false` to let it block for real.
+    fn lock_contended(&self, id: usize, class: &'static str, exclusive: bool) -> bool;
+    fn lock_acquired(&self, id: usize, class: &'static str, exclusive: bool);
+    fn lock_released(&self, id: usize, class: &'static str, exclusive: bool);
+}
+
+static RECEIVER: OnceLock<Box<dyn Receiver>> = OnceLock::new();
+
+/// Install the process-wide receiver. Returns `false` if one was already installed.
+pub fn install(receiver: Box<dyn Receiver>) -> bool {
+    RECEIVER.set(receiver).is_ok()
+}
+
+#[inline]
+fn receiver() -> Option<&'static dyn Receiver> {
+    RECEIVER.get().map(|b| &**b)
+}
+
+#[inline]
+pub fn point(name: &'static str) {
+    if let Some(r) = receiver() {
+        r.point(name);
+    }
+}
+
+fn class_of<T>() -> &'static str {
+    std::any::type_name::<T>()
+}
+
+// ---------------------------------------------------------------- Mutex
+
+pub struct Mutex<T> {
+    inner: parking_lot::Mutex<T>,
+}
+
+pub struct MutexGuard<'a, T> {
+    inner: parking_lot::MutexGuard<'a, T>,
+    id: usize,
+}
+
+impl<T> Mutex<T> {
+    pub fn new(value: T) -> Self {
+        Self { inner: parking_lot::Mutex::new(value) }
+    }
+
+    fn id(&self) -> usize {
+        std::ptr::from_ref(&self.inner) as usize
+    }
+
+    pub fn lock(&self) -> MutexGuard<'_, T> {
+        let id = self.id();
+        let Some(r) = receiver() else {
+            return MutexGuard { inner: self.inner.lock(), id };
+        };
+        let class = class_of::<T>();
+        r.lock_before(id, class, true);
+        let inner = loop {
+            if let Some(g) = self.inner.try_lock() {
+                break g;
+            }
+            if !r.lock_contended(id, class, true) {
+                break self.inner.lock();
+            }
+        };
+        r.lock_acquired(id, class, true);
+        MutexGuard { inner, id }
+    }
+}
+
+impl<T> Deref for MutexGuard<'_, T> {
+    type Target = T;
+    fn deref(&self) -> &T {
+        &self.inner
+    }
+}
+
+impl<T> DerefMut for MutexGuard<'_, T> {
+    fn deref_mut(&mut self) -> &mut T {
+        &mut self.inner
+    }
+}
+
+impl<T> Drop for MutexGuard<'_, T> {
+    fn drop(&mut self) {
+        // Reported just before the real unlock (field drop follows this body); a
+        // receiver that wakes a waiter early only makes it retry once more.
+        if let Some(r) = receiver() {
+            r.lock_released(self.id, class_of::<T>(), true);
+        }
+    }
+}
+
+// ---------------------------------------------------------------- RwLock
+
+pub struct RwLock<T> {
+    inner: parking_lot::RwLock<T>,
+}
+
+pub struct RwLockReadGuard<'a, T> {
+    inner: parking_lot::RwLockReadGuard<'a, T>,
+    id: usize,
+}
+
+pub struct RwLockWriteGuard<'a, T> {
+    inner: parking_lot::RwLockWriteGuard<'a, T>,
+    id: usize,
+}
+
+impl<T> RwLock<T> {
+    pub fn new(value: T) -> Self {
+        Self { inner: parking_lot::RwLock::new(value) }
+    }
+
+    fn id(&self) -> usize {
+        std::ptr::from_ref(&self.inner) as usize
+    }
+
+    pub fn read(&self) -> RwLockReadGuard<'_, T> {
+        let id = self.id();
+        let Some(r) = receiver() else {
+            return RwLockReadGuard { inner: self.inner.read(), id };
+        };
+        let class = class_of::<T>();
+        r.lock_before(id, class, false);
+        let inner = loop {
+            if let Some(g) = self.inner.try_read() {
+                break g;
+            }
+            if !r.lock_contended(id, class, false) {
+                break self.inner.read();
+            }
+        };
+        r.lock_acquired(id, class, false);
+        RwLockReadGuard { inner, id }
+    }
+
+    pub fn write(&self) -> RwLockWriteGuard<'_, T> {
+        let id = self.id();
+        let Some(r) = receiver() else {
+            return RwLockWriteGuard { inner: self.inner.write(), id };
+        };
+        let class = class_of::<T>();
+        r.lock_before(id, class, true);
+        let inner = loop {
+            if let Some(g) = self.inner.try_write() {
+                break g;
+            }
+            if !r.lock_contended(id, class, true) {
+                break self.inner.write();
+            }
+        };
+        r.lock_acquired(id, class, true);
+        RwLockWriteGuard { inner, id }
+    }
+}
+
+impl<T> Deref for RwLockReadGuard<'_, T> {
+    type Target = T;
+    fn deref(&self) -> &T {
+        &self.inner
+    }
+}
+
+impl<T> Drop for RwLockReadGuard<'_, T> {
+    fn drop(&mut self) {
+        if let Some(r) = receiver() {
+            r.lock_released(self.id, class_of::<T>(), false);
+        }
+    }
+}
+
+impl<T> Deref for RwLockWriteGuard<'_, T> {
+    type Target = T;
+    fn deref(&self) -> &T {
+        &self.inner
+    }
+}
+
+impl<T> DerefMut for RwLockWriteGuard<'_, T> {
+    fn deref_mut(&mut self) -> &mut T {
+        &mut self.inner
+    }
+}
+
+impl<T> Drop for RwLockWriteGuard<'_, T> {
+    fn drop(&mut self) {
+        if let Some(r) = receiver() {
+            r.lock_released(self.id, class_of::<T>(), true);
+        }
+    }
+}
+
+// ---------------------------------------------------------------- re-exports
+
+/// Crate-private codec functions, for codec monitors and Miri.
+pub mod codec {
+    use std::collections::BTreeMap;
+    use std::num::NonZeroU64;
+
+    pub use crate::serialization::SerializationError;
+    use crate::{IndexStateItem, KeyBytes, WalOpRaw};
+
+    pub fn serialize_index_state<K: KeyBytes>(
+        map: &BTreeMap<K, IndexStateItem>,
+        last_persisted_version: Option<NonZeroU64>,
+    ) -> Vec<u8> {
+        crate::serialization::serialize_index_state(map, last_persisted_version)
+    }
+
+    #[allow(clippy::type_complexity)]
+    pub fn deserialize_index_state(
+        bytes: &[u8],
+    ) -> Result<(BTreeMap<Vec<u8>, IndexStateItem>, Option<NonZeroU64>), SerializationError> {
+        crate::serialization::deserialize_index_state(bytes)
+    }
+
+    pub fn serialize_wal_op_raw(op: &WalOpRaw) -> Result<Vec<u8>, SerializationError> {
+        crate::serialization::serialize_wal_op_raw(op)
+    }
+
+    pub fn deserialize_wal_op_raw(bytes: &[u8]) -> Result<WalOpRaw, SerializationError> {
+        crate::serialization::deserialize_wal_op_raw(bytes)
+    }
+}
+
+/// `CasManager::read_blob_range` on the blob `hash` of the database rooted at `db_root`,
+/// without opening the database (for Miri, which cannot run `Cas::open`).
+pub fn read_blob_range(
+    db_root: &std::path::Path,
+    hash: &crate::BlobHash,
+    range_start: u64,
+    range_end: u64,
+) -> Result<bytes::Bytes, crate::cas_manager::CasManagerError> {
+    let paths = crate::paths::DbPaths::new(db_root.to_path_buf());
+    crate::cas_manager::CasManager::new(paths, true).read_blob_range(hash, range_start, range_end)
+}
